@@ -255,7 +255,10 @@ reg(Check("C19", "exploration",
 
 reg(Check("C08", "model_checking",
           "direct: cached topic state == stored rows at every state of the acl and msg searches; faults: every request of the alphabet "
-          "from every state up to depth 2 with EVERY store call failing once; reload differential on message/deletion histories",
+          "from every state up to depth 2 with EVERY store call failing once; reload differential on message/deletion histories; "
+          "at-load: 11 requests by sessions which are not attached (own / another user's permissions, private data, description, tags, "
+          "default access, unsubscribe, eviction, topic deletion, attach), each handled completely at every store-call boundary and atomic "
+          "operation of the load of the topic triggered by another user's {sub}: afterwards cached == stored and both requests are answered",
           ["canonical schedule only", "non-persistent fields (online, last seen, user agent) excluded"],
           text=XS_NOTE + "; plus exhaustive single-fault enumeration of every store call made by every request",
           note="trusted: memdb store contract, instrumenter/scheduler",
@@ -265,7 +268,8 @@ reg(Check("C08", "model_checking",
                  Part("acl-fault", SRV, "^TestVerifC08AclFault$", instr=True, gomaxprocs=16, deadline=(300, 2400)),
                  Part("msg", SRV, "^TestVerifC08Msg$", instr=True, gomaxprocs=16, deadline=(400, 3000)),
                  Part("msg-fault", SRV, "^TestVerifC08MsgFault$", instr=True, gomaxprocs=16, deadline=(400, 3000)),
-                 Part("p2p", SRV, "^TestVerifC08P2P$", instr=True, gomaxprocs=16, deadline=(300, 2400))]))
+                 Part("p2p", SRV, "^TestVerifC08P2P$", instr=True, gomaxprocs=16, deadline=(300, 2400)),
+                 Part("at-load", SRV, "^TestVerifC08AtLoad$", instr=True, shards=(16, 16), deadline=(300, 1200))]))
 
 reg(Check("C13", "model_checking",
           "inputs: for each of the 10 client message kinds a well-formed baseline and, for every field of it (id, topic, what, mode, user, "
@@ -291,6 +295,7 @@ reg(Check("C13", "model_checking",
                  Part("acl-fault", SRV, "^TestVerifC13AclFault$", instr=True, gomaxprocs=16, deadline=(300, 2400)),
                  Part("msg-fault", SRV, "^TestVerifC13MsgFault$", instr=True, gomaxprocs=16, deadline=(300, 2400)),
                  Part("acc-reply", SRV, "^TestVerifC13AccReply$", instr=True, shards=(16, 16)),
+                 Part("at-load", SRV, "^TestVerifC13AtLoad$", instr=True, shards=(16, 16), deadline=(300, 1200)),
                  Part("drafty", "server/drafty", "^TestVerifC13Drafty$", shards=(16, 16), deadline=(300, 2400))]))
 
 MSG_RULE = ("BFS over histories of {pub by 4 users (one with forged sender header + noecho), soft/hard delete with 6 (quick) / 11 (thorough) "
